@@ -55,13 +55,13 @@ type Model struct {
 	local    map[string]map[string]byte // in-process subscribers: name -> filter -> qos
 	auth     bool
 	// authFn, when set, decides per user name (selective authenticator)
-	authFn func(user string) bool
+	authFn func(user, pass string) bool
 }
 
 // authOK: does the authenticator accept this user?
-func (m *Model) authOK(user string) bool {
+func (m *Model) authOK(user, pass string) bool {
 	if m.authFn != nil {
-		return m.authFn(user)
+		return m.authFn(user, pass)
 	}
 	return m.auth
 }
